@@ -83,6 +83,10 @@ static void *task0(void *p)
 }
 
 static std::string g_current_id;
+// set by a scenario once all its oracles have been evaluated and only teardown remains: hitting a step or
+// simulated-time limit there (e.g. rtr_stop joining a thread that sleeps an accepted 10-year retry interval while
+// another socket keeps polling) truncates the run and says nothing about a property
+bool g_teardown_only = false;
 
 static void on_fatal(enum sim_fatal_kind kind, const char *msg)
 {
@@ -90,6 +94,8 @@ static void on_fatal(enum sim_fatal_kind kind, const char *msg)
 	J r = J::obj();
 	r["id"] = g_current_id;
 	r["fatal"] = nm[kind];
+	if (g_teardown_only && (kind == SIM_F_STEPS || kind == SIM_F_SIMTIME))
+		r["benign"] = true;
 	r["msg"] = msg;
 	r["t_ns"] = (long long)sim_now_ns();
 	r["steps"] = (long long)sim_steps();
@@ -119,6 +125,7 @@ static J execute(const Scenario *scn, const J &plan, bool trace, const std::stri
 {
 	RunCtx ctx;
 	g_ctx = &ctx;
+	g_teardown_only = false;
 	simalloc_reset((uint8_t)plan.geti("fill", 0xA5));
 	sim_cfg cfg = sim_cfg_from_plan(plan);
 	cfg.trace = trace;
